@@ -747,15 +747,22 @@ theorem recoverWal_spec (m1 : Mem) (ft : Nat) (hok : AllOk m1.frames.length m1.p
     exact ⟨Quiet.of_skel hs hq, by rw [hs.frames, hp]; rfl⟩
   · obtain ⟨ma, δ, h1, hv, _, _⟩ := applyRecords_view m1 m1.pending true hok
     simp only [h1]
-    have hb : (((if δ.nonEmpty = true then ma.rebuildIndexes δ.embs δ.inserted ft else ma.flushTantivy ft)).persistSketch.bumpFooter ft).frames.map view
+    have he : SkelLex (ma.enableVecForEmbs δ.embs) ma := by
+      unfold Mem.enableVecForEmbs; split
+      · exact SkelLex.of_eq rfl rfl rfl
+      · exact SkelLex.refl ma
+    have hb : (((if δ.nonEmpty = true then (ma.enableVecForEmbs δ.embs).rebuildIndexes δ.embs δ.inserted ft
+        else (ma.enableVecForEmbs δ.embs).flushTantivy ft)).persistSketch.bumpFooter ft).frames.map view
         = ma.frames.map view := by
-      show ((if δ.nonEmpty = true then ma.rebuildIndexes δ.embs δ.inserted ft else ma.flushTantivy ft)).frames.map view = _
+      show ((if δ.nonEmpty = true then (ma.enableVecForEmbs δ.embs).rebuildIndexes δ.embs δ.inserted ft
+        else (ma.enableVecForEmbs δ.embs).flushTantivy ft)).frames.map view = _
       split
-      · exact (rebuildIndexes_skel ma _ _ ft).frames
-      · exact (flushTantivy_skel ma ft).frames
+      · exact ((rebuildIndexes_skel _ _ _ ft).trans he).frames
+      · exact ((flushTantivy_skel _ ft).trans he).frames
     refine ⟨⟨?_, rfl⟩, ?_⟩
     · intro r hr; cases hr
-    · show (((if δ.nonEmpty = true then ma.rebuildIndexes δ.embs δ.inserted ft else ma.flushTantivy ft)).persistSketch.bumpFooter ft).frames.map view = _
+    · show (((if δ.nonEmpty = true then (ma.enableVecForEmbs δ.embs).rebuildIndexes δ.embs δ.inserted ft
+        else (ma.enableVecForEmbs δ.embs).flushTantivy ft)).persistSketch.bumpFooter ft).frames.map view = _
       rw [hb, hv]
 
 theorem openFrom_spec (m : Mem) (ft : Nat) (hok : AllOk m.frames.length m.pending) :
@@ -819,28 +826,42 @@ theorem view_compact (fs : List Frame) (c : Nat) : (compact fs c).1.map view = f
 theorem compactFrames_skel (m : Mem) : SkelLex m.compactFrames m :=
   ⟨view_compact m.frames 0, rfl, [], by simp [OnlyLex], by simp [Mem.compactFrames]⟩
 
-theorem vacuum_sim (m : Mem) (a b : Nat) (hi : Inv m) :
-    Inv (m.vacuum a b).1 ∧ abs (m.vacuum a b).1 = abs m := by
+/-- after `commit()` nothing but (no) records is pending -/
+theorem commit_quiet (m : Mem) (ft : Nat) (hi : Inv m) : Quiet (m.commit ft).1 := by
+  unfold Mem.commit
+  split
+  · rename_i h
+    have hp : m.pending = [] := by
+      have : m.pending.isEmpty = true := by
+        revert h; cases m.pending.isEmpty <;> simp
+      simpa using this
+    exact ⟨(by rw [hp]; intro r hr; cases hr), by rw [hi.pi, hp]; rfl⟩
+  · obtain ⟨m', h, hc⟩ := commitFromRecords_clean m ft hi
+    simp only [h]; exact hc.quiet
+
+/-- `vacuum`: everything pending is committed first, the compaction and the rebuild do not change what
+    the spec sees, and the final checkpoint leaves nothing pending -/
+theorem vacuum_spec (m : Mem) (a b : Nat) (hi : Inv m) :
+    Quiet (m.vacuum a b).1 ∧ abs (m.vacuum a b).1 = abs m := by
   unfold Mem.vacuum
-  have hci := commit_inv m a hi
+  have hcq := commit_quiet m a hi
   have hca := commit_abs m a hi
   split
   · have hs := SkelLex.trans (rebuildIndexes_skel (m.commit a).1.compactFrames [] [] b) (compactFrames_skel (m.commit a).1)
-    exact ⟨hs.inv hci, hs.abs.trans hca⟩
-  · exact ⟨hci, hca⟩
+    have hq : Quiet ((((m.commit a).1.compactFrames.rebuildIndexes [] [] b).persistSketch.bumpFooter b).checkpoint) :=
+      ⟨(by intro r hr; cases hr), rfl⟩
+    refine ⟨hq, ?_⟩
+    rw [hq.abs_eq]
+    show ((m.commit a).1.compactFrames.rebuildIndexes [] [] b).frames.map view = _
+    rw [hs.frames, ← hcq.abs_eq, hca]
+  · exact ⟨hcq, hca⟩
 
-/-- after `vacuum` only `Lex` records can be pending -/
-theorem vacuum_quiet (m : Mem) (a b : Nat) (hq : Quiet m) : Quiet (m.vacuum a b).1 := by
-  unfold Mem.vacuum
-  have hcq : Quiet (m.commit a).1 := by
-    unfold Mem.commit
-    split
-    · exact hq
-    · obtain ⟨m', h, hc⟩ := commitFromRecords_clean m a hq.inv
-      simp only [h]; exact hc.quiet
-  split
-  · exact Quiet.of_skel (SkelLex.trans (rebuildIndexes_skel (m.commit a).1.compactFrames [] [] b) (compactFrames_skel (m.commit a).1)) hcq
-  · exact hcq
+theorem vacuum_sim (m : Mem) (a b : Nat) (hi : Inv m) :
+    Inv (m.vacuum a b).1 ∧ abs (m.vacuum a b).1 = abs m :=
+  ⟨(vacuum_spec m a b hi).1.inv, (vacuum_spec m a b hi).2⟩
+
+theorem vacuum_quiet (m : Mem) (a b : Nat) (hq : Quiet m) : Quiet (m.vacuum a b).1 :=
+  (vacuum_spec m a b hq.inv).1
 
 theorem resetWal_quiet (m : Mem) (hq : Quiet m) : Quiet m.resetWal ∧ abs m.resetWal = abs m := by
   have hq' : Quiet m.resetWal := ⟨(by intro r hr; cases hr), hq.pi⟩
